@@ -103,13 +103,7 @@ func (d *wrappedSlidingWindowDetector) Check(seq uint64) (func() bool, bool) {
 		}
 	}
 
-	diff := int64(latestSeq) - int64(seq) //nolint:gosec // GG115 TODO check
-	// Wrap the number.
-	if diff > int64(d.maxSeq)/2 { //nolint:gosec // GG115 TODO check
-		diff -= int64(d.maxSeq + 1) //nolint:gosec // GG115 TODO check
-	} else if diff <= -int64(d.maxSeq)/2 { //nolint:gosec // GG115 TODO check
-		diff += int64(d.maxSeq + 1) //nolint:gosec // GG115 TODO check
-	}
+	diff := d.behind(latestSeq, seq)
 
 	if diff >= int64(d.windowSize) { //nolint:gosec // GG115 TODO check
 		// Too old.
@@ -128,6 +122,9 @@ func (d *wrappedSlidingWindowDetector) Check(seq uint64) (func() bool, bool) {
 			d.latestSeq = latestSeq
 			d.init = true
 		}
+		// The window may have moved since Check (another number was accepted
+		// in between): place seq relative to the window as it is now.
+		diff := d.behind(d.latestSeq, seq)
 		if diff < 0 {
 			// Update the head of the window.
 			d.mask.Lsh(uint(-diff))
@@ -143,4 +140,18 @@ func (d *wrappedSlidingWindowDetector) Check(seq uint64) (func() bool, bool) {
 
 		return latest
 	}, true
+}
+
+// behind returns how far seq lies behind latestSeq (negative when it is ahead),
+// folded into half of the sequence space.
+func (d *wrappedSlidingWindowDetector) behind(latestSeq, seq uint64) int64 {
+	diff := int64(latestSeq) - int64(seq) //nolint:gosec // GG115 TODO check
+	// Wrap the number.
+	if diff > int64(d.maxSeq)/2 { //nolint:gosec // GG115 TODO check
+		diff -= int64(d.maxSeq + 1) //nolint:gosec // GG115 TODO check
+	} else if diff <= -int64(d.maxSeq)/2 { //nolint:gosec // GG115 TODO check
+		diff += int64(d.maxSeq + 1) //nolint:gosec // GG115 TODO check
+	}
+
+	return diff
 }
